@@ -118,7 +118,12 @@ func (g *pgen) text(class string) string {
 		s = String(g.r, g.o.Str)
 	}
 	if g.o.UniqueStrings {
-		s = s + "#" + g.uid.Next()
+		// the id goes in front half of the time, so that the generated text also ends the string
+		if g.r.IntN(2) == 0 {
+			s = g.uid.Next() + "#" + s
+		} else {
+			s = s + "#" + g.uid.Next()
+		}
 	}
 	switch {
 	case strings.Contains(s, "\n"):
@@ -254,6 +259,9 @@ func (g *pgen) extras(m *doc.Node, class string, reserved map[string]bool, max i
 			if k == "<<" {
 				k = "<<x"
 			}
+			if len(k) > 300 {
+				k = k[:300]
+			}
 		default:
 			k = Ident(g.r) + "_" + g.uid.Next()
 		}
@@ -296,6 +304,16 @@ func (g *pgen) pipeline() *doc.Node {
 		}
 		for i := 0; i < n; i++ {
 			name := strings.ToUpper(Ident(g.r)) + "_" + g.uid.Next()
+			if g.chance(3) {
+				// env names are not always upper case, and may start like the signing namespace prefix
+				name = Pick(g.r, []string{"env", "node_version", "version", "npm_config", "e", "n", "v", "lower", "Mixed_Case", "nvm_dir"}) + "_" + g.uid.Next()
+				if g.chance(4) {
+					name = Pick(g.r, []string{"env", "e", "n", "v", "vv", "ee", "nenv"})
+					if e.Has(name) {
+						continue
+					}
+				}
+			}
 			if len(g.o.BlockNames) > 0 && g.chance(2) {
 				// a block entry that (re)defines a variable the reference snippets use
 				name = g.o.BlockNames[g.r.IntN(len(g.o.BlockNames))]
